@@ -197,7 +197,40 @@ func wsconcGen(r *rng, maxops int, w *bufio.Writer) {
 // wsconcEnum: every sequence of k events over a small alphabet (reads that re-arm themselves, a write that fits the
 // socket buffer, a write that blocks half-way, a Ping, a data frame, a poll, a flush, a message read whose callback
 // writes).
+// enum scenarios: hand-written sessions in which completion callbacks issue several operations while a flush is (again) in
+// flight: the operations queued behind the first flush must each complete exactly once and in order, also when the first of them
+// to be notified starts the next parked write and queues more operations behind that one.
+func wsconcScenarios(w *bufio.Writer) {
+	n := 0
+	emit := func(lines ...string) {
+		fmt.Fprintf(w, "# script s%d\n! new rw=raw snd=4096 rcv=4096 max=524288\n", n)
+		n++
+		for _, l := range lines {
+			fmt.Fprintf(w, "! %s\n", l)
+		}
+		fmt.Fprintf(w, "! finish\n")
+	}
+	tail := []string{"poll", "drain", "poll", "drain", "poll", "drain", "poll", "drain", "poll"}
+	with := func(head ...string) []string { return append(head, tail...) }
+	for _, second := range []string{"write 40 1 5", "flush 40", "writeframe 40 1 2 7", "close 40 1000 -"} {
+		// the callback of the parked write issues a write that parks again and one more operation
+		emit(with("prog 10 write 30 2 13000 ; "+second, "write 10 2 13000", "write 20 1 5")...)
+		emit(with("prog 10 write 30 2 13000 ; "+second, "write 10 2 13000", "read 20", "peer 1 0 1 0 6869")...)
+		emit(with("prog 10 write 30 2 13000 ; "+second, "write 10 2 13000", "readmsg 20 64", "peer 1 0 9 0 aa", "peer 1 0 2 0 0102")...)
+		// the first of two queued operations does it
+		emit(with("prog 20 write 30 2 13000 ; "+second+" ; write 60 1 6", "write 10 2 13000", "write 20 1 5", "write 25 1 4")...)
+		emit(with("prog 20 write 30 2 13000 ; "+second+" ; write 60 1 6", "write 10 2 13000", "write 20 1 5", "flush 25", "read 26", "peer 1 0 1 0 6869")...)
+		emit(with("prog 20 write 30 2 13000 ; "+second, "write 10 2 13000", "flush 20", "read 25", "peer 1 0 9 0 bb", "peer 1 0 1 0 6869")...)
+		// ... and once more from the second generation
+		emit(with("prog 10 write 30 2 13000 ; write 35 1 5", "prog 35 write 50 2 13000 ; "+second+" ; write 60 1 6", "write 10 2 13000", "write 20 1 5", "write 25 1 4")...)
+	}
+}
+
 func wsconcEnum(args []string, w *bufio.Writer) {
+	if len(args) > 0 && args[0] == "scenarios" {
+		wsconcScenarios(w)
+		return
+	}
 	k := 3
 	if len(args) > 0 {
 		k = atoi(args[0])
